@@ -14,12 +14,14 @@ A case is {"inp": input, "out": [one observation per step], "exc": ""} with the 
   ret     the returned ids as a list ([] unless retk = "ids")
   before  row ids of fetch_table before the step        after   ... after the step
   view    row ids in Table.row_ids after the step (the engine's own row id set)
+  again   row ids of a follow-up fetch_table after the step
   held    for every position of the request: the id of the row that now holds that record's value,
           -1 if no row holds it (each requested record carries a distinct value in column A)
   dig0 / dig1   31-bit digests of the whole document (every table, metadata included) before/after
 
-Nothing is judged here.  The table is created fresh for every history (AddRawTable), rows of the
-set-up are created at doc-action level so that the code under test is not used to prepare its input.
+Nothing is judged here.  The table is emptied and re-filled at doc-action level before every history
+(see Runner), so that the code under test is not used to prepare its own input; the worker only
+insists that this set-up produced the rows of the input (else MachineryError).
 """
 import json
 import sys
@@ -29,22 +31,21 @@ import adapter
 import actions
 
 KINDS = ("AddRecord", "BulkAddRecord", "ReplaceTableData")
-ENGINE_REUSE = 150          # histories per engine
+TABLE = "T"
+ENGINE_REUSE = 400          # histories per engine
 
 
 def decode_req(req):
   return [None if r["k"] == "N" else int(r["v"]) for r in req]
 
 
-def digest(eng):
-  snap = adapter.fetch_all(eng)
+def digest(snap):
   blob = json.dumps(snap, sort_keys=True, default=repr)
   return zlib.crc32(blob.encode("utf8")) & 0x3fffffff
 
 
-def rows_of(eng, table_id):
-  td = eng.fetch_table(table_id, formulas=True)
-  return [int(r) for r in td.row_ids], list(td.columns["A"])
+def doc_apply(eng, doc_action_reprs):
+  eng.apply_user_actions([adapter.useractions.from_repr(["ApplyDocActions", doc_action_reprs])])
 
 
 def as_ids(val):
@@ -59,67 +60,68 @@ def as_ids(val):
 
 
 class Runner(object):
+  """One engine and one table "T" for up to ENGINE_REUSE histories; the table is emptied and
+  re-filled at doc-action level (docactions.ReplaceTableData -> Engine.load_table clears every
+  column) before each history, so no history sees cells, sizes or row ids of an earlier one."""
+
   def __init__(self):
     self.eng = None
     self.used = 0
-    self.serial = 0
 
   def engine(self):
     if self.eng is None or self.used >= ENGINE_REUSE:
       self.eng = adapter.new_engine()
       adapter.apply(self.eng, [["InitNewDoc"]])
+      adapter.apply(self.eng, [["AddTable", TABLE, [{"id": "A", "type": "Int", "isFormula": False}]]])
       self.used = 0
     self.used += 1
     return self.eng
 
   def run(self, inp):
     eng = self.engine()
-    self.serial += 1
-    tid = "T"
-    adapter.apply(eng, [["AddRawTable", tid, [{"id": "A", "type": "Int", "isFormula": False}]]])
     try:
-      return self._history(eng, tid, inp)
+      return self._history(eng, inp)
     except Exception:      # the engine itself is in doubt: do not reuse it
       self.eng = None
       raise
-    finally:
-      if self.eng is not None:
-        try:
-          adapter.apply(eng, [["RemoveTable", tid]])
-        except Exception:   # pylint: disable=broad-except
-          self.eng = None
 
-  def _history(self, eng, tid, inp):
-    setup = sorted(set(inp["rows"]) | set(inp.get("gone", [])))
-    if setup:
-      # doc-action level set-up (what loading/replaying a stored action does), not the user action
-      eng.apply_user_actions([adapter.useractions.from_repr(
-        ["ApplyDocActions", [["BulkAddRecord", tid, setup, {"A": [-r for r in setup]}]]])])
-    if inp.get("gone"):
-      adapter.apply(eng, [["BulkRemoveRecord", tid, sorted(inp["gone"])]])
+  def _history(self, eng, inp):
+    rows, gone = sorted(set(inp["rows"])), sorted(set(inp.get("gone", [])))
+    setup = sorted(set(rows) | set(gone))
+    # doc-action level set-up (what replaying a stored action does), not the user actions under test
+    doc_apply(eng, [["ReplaceTableData", TABLE, setup,
+                     {"A": [-r for r in setup], "manualSort": [float(r) for r in setup]}]])
+    if gone:
+      doc_apply(eng, [["BulkRemoveRecord", TABLE, gone]])
     obs = []
     value = 1000
-    for step in inp["steps"]:
+    for n, step in enumerate(inp["steps"]):
       kind, req = step["kind"], decode_req(step["req"])
       vals = list(range(value, value + len(req)))
       value += len(req) + 1
-      before, _ = rows_of(eng, tid)
-      dig0 = digest(eng)
+      snap0 = adapter.fetch_all(eng)
+      before = [int(r) for r in snap0[TABLE][0]]
+      if n == 0 and (before != rows or sorted(int(r) for r in eng.tables[TABLE].row_ids) != rows):
+        raise adapter.MachineryError("set-up failed: wanted rows %r, table has %r" % (rows, before))
       o = {"exc": "", "retk": "", "ret": [], "before": before}
       try:
         if kind == "AddRecord":
-          ua = ["AddRecord", tid, req[0], {"A": vals[0]}]
+          ua = ["AddRecord", TABLE, req[0], {"A": vals[0]}]
         else:
-          ua = [kind, tid, req, {"A": vals}]
+          ua = [kind, TABLE, req, {"A": vals}]
         reply = adapter.apply(eng, [ua])
         o["retk"], o["ret"] = as_ids(reply["retValues"][0])
       except Exception as e:   # pylint: disable=broad-except
         o["exc"] = type(e).__name__
-      after, acol = rows_of(eng, tid)
+      snap1 = adapter.fetch_all(eng)
+      after, acol = [int(r) for r in snap1[TABLE][0]], snap1[TABLE][1]["A"]
       o["after"] = after
-      o["view"] = sorted(int(r) for r in eng.tables[tid].row_ids)
-      o["held"] = [(after[acol.index(v)] if v in acol else -1) for v in vals]
-      o["dig0"], o["dig1"] = dig0, digest(eng)
+      o["view"] = sorted(int(r) for r in eng.tables[TABLE].row_ids)
+      # a follow-up fetch_table of the same table
+      o["again"] = [int(r) for r in eng.fetch_table(TABLE, formulas=True).row_ids]
+      where = {v: r for r, v in zip(after, acol)}
+      o["held"] = [where.get(v, -1) for v in vals]
+      o["dig0"], o["dig1"] = digest(snap0), digest(snap1)
       obs.append(o)
     return obs
 
